@@ -19,6 +19,8 @@ ERRNO = ["-include", "$VERIF/include/verif_errno_shim.h"]
 GROUPS.append(G("pb_ProcessFile_data", PB, "h_ProcessFile_data", enforce=[], replace=[], dfcc=False, drop_unused=True, link=["toolutils.c", "as_endian.c", "bpemu.c"],
                 loops=True, unwind=40, unwindset=["@ProcessFile:ProcessFile:last:3"], timeout=900, cflags=ERRNO, functions=["ProcessFile"], object_bits=12, split=8, flags=["--slice-formula"],
                 bounded="input = one data record of arbitrary header form, address, length (copy loop under loop contract: unbounded payload) followed by the end record"))
+GROUPS.append(G("pb_Open_Close_Target", PB, "h_Open_Close_Target", enforce=[], dfcc=False, drop_unused=True, link=["toolutils.c", "as_endian.c", "bpemu.c"], unwind=20, timeout=600, cflags=ERRNO,
+                functions=["OpenTarget", "CloseTarget"], object_bits=12, flags=["--slice-formula"]))
 for gran in (0, 1, 2, 4):
     GROUPS.append(G("pl_ProcessSingle_data_g%d" % gran, "harness/C07/h_plist.c", "h_ProcessSingle_data", enforce=[], dfcc=False, drop_unused=True, defs=["-DVERIF_GRAN=%d" % gran],
                     link=["toolutils.c", "as_endian.c", "bpemu.c", "addrspace.c"], unwind=4, timeout=600, cflags=ERRNO, functions=["ProcessSingle"], object_bits=12, flags=["--slice-formula"], split=4,
@@ -34,7 +36,7 @@ GROUPS.append(G("pl_main_totals", "harness/C07/h_plist.c", "h_main_totals", enfo
 TRUSTED_BASE = ["stubs/gfile.c: ghost stdio model (position/length exact, one witness byte, short reads/failed writes as oracle)",
                 "message catalogue and printf/fprintf replaced by no-op monitors", "exit() monitor"]
 ASSUMPTIONS = ["files are shorter than 2 GiB (long is 64 bit; positions handled as long)"]
-NOT_COVERED = ["pbind OpenTarget/CloseTarget (creator record)", "entry-address and relocation records", "CMD_FilterList option parsing", "files with more than one data record (record loops unwound)"]
+NOT_COVERED = ["entry-address and relocation records", "CMD_FilterList option parsing", "files with more than one data record (record loops unwound)"]
 EXPLANATION = ""
 
 MANIFEST = dict(
